@@ -12,8 +12,9 @@ All statements are for all inputs.  Proof machinery: `StubGen.Proofs.Reconcile`.
 Known findings that the statements make explicit (they are part of the theorems, not hidden):
 * whenever the docstring type is taken, the parameter's `isOptional`/`default` are REPLACED by the
   docstring default (`param_choice`), also when the code has a default and the docstring has none;
-* results appended for surplus documented results are numbered by the loop counter, starting at 0
-  (`result_choice`), whereas `parseResults` numbers from 1;
+* results appended for surplus documented results without a name are numbered `result_<position + 1>`
+  (`result_choice`), 1-based like the names `parseResults` generates; with generated code names and unnamed
+  documented results the names of the returned list are pairwise distinct (`appended_names_fresh`);
 * a documented result WITHOUT a type still consumes its position (`result_choice`, `result_warn_iff`).
 -/
 import StubGen.Proofs.Reconcile
@@ -106,7 +107,7 @@ theorem result_total (env : AEnv) (fid : String) (i : Nat) (all rs : List Result
     * the remaining code results, position by position against the documented results: the type is the
       documented one iff there is one and the preference is DOCSTRING; `id` and `name` never change,
     * one appended result per documented result BEYOND the code results that has a type, named by the
-      docstring or else `result_<k>` with `k` the loop counter (= `i` + position in `docs`). -/
+      docstring or else `result_<k + 1>` with `k` the loop counter (= `i` + position in `docs`). -/
 theorem result_choice_general (env : AEnv) (fid : String) (i : Nat) (pre rs rs' : List Result)
     (docs : List ResultDoc) (st st' : VSt) (hpre : pre.length = i)
     (h : reconcileResults env fid i (pre ++ rs) rs docs st = .ok (rs', st')) :
@@ -116,8 +117,8 @@ theorem result_choice_general (env : AEnv) (fid : String) (i : Nat) (pre rs rs' 
           | none => r)
       ++ ((docs.drop rs.length).zipIdx (i + rs.length)).filterMap (fun (d, k) =>
           d.type.map fun dt =>
-            { id := fid ++ "/" ++ (if d.name != "" then d.name else "result_" ++ toString k),
-              name := (if d.name != "" then d.name else "result_" ++ toString k), type := some dt }) := by
+            { id := fid ++ "/" ++ (if d.name != "" then d.name else "result_" ++ toString (k + 1)),
+              name := (if d.name != "" then d.name else "result_" ++ toString (k + 1)), type := some dt }) := by
   rw [l14_reconcileResults_run] at h
   simp only [Except.ok.injEq, Prod.mk.injEq] at h
   obtain ⟨rfl, -⟩ := h
@@ -140,8 +141,9 @@ theorem result_choice_general (env : AEnv) (fid : String) (i : Nat) (pre rs rs' 
     (a) every code result keeps its position, `id` and `name`; its type is the documented type iff the
         documented result at that position has a type and the preference is DOCSTRING;
     (b) behind them, one result per documented result at a position `≥ rs.length` that has a type,
-        named by the docstring or else `result_<position>` — numbered from 0 by position in `docs`
-        (known quirk); documented results without a type add nothing;
+        named by the docstring or else `result_<k + 1>` with `k` the 0-based position in `docs` — the
+        same 1-based numbering as the generated names of code results; documented results without a type
+        add nothing;
     (c) the resulting length. -/
 theorem result_choice (env : AEnv) (fid : String) (rs rs' : List Result) (docs : List ResultDoc)
     (st st' : VSt) (h : reconcileResults env fid 0 rs rs docs st = .ok (rs', st')) :
@@ -151,8 +153,8 @@ theorem result_choice (env : AEnv) (fid : String) (rs rs' : List Result) (docs :
         | none => r.type }) ∧
     rs'.drop rs.length = ((docs.drop rs.length).zipIdx rs.length).filterMap (fun (d, k) =>
         d.type.map fun dt =>
-          { id := fid ++ "/" ++ (if d.name != "" then d.name else "result_" ++ toString k),
-            name := (if d.name != "" then d.name else "result_" ++ toString k), type := some dt }) ∧
+          { id := fid ++ "/" ++ (if d.name != "" then d.name else "result_" ++ toString (k + 1)),
+            name := (if d.name != "" then d.name else "result_" ++ toString (k + 1)), type := some dt }) ∧
     rs'.length = rs.length + ((docs.drop rs.length).filter (·.type.isSome)).length := by
   rw [l14_reconcileResults_run] at h
   simp only [Except.ok.injEq, Prod.mk.injEq] at h
@@ -178,6 +180,71 @@ theorem result_choice (env : AEnv) (fid : String) (rs rs' : List Result) (docs :
       l14_appended_eq]
     rfl
   · rw [List.length_append, l14_zipUpd_length, l14_appended_length]
+
+/-- Appended names are fresh.  If the code results carry the generated names (`result_<j + 1>` at
+    position `j`: what `parseResults` produces when the docstring gives no names) and the documented
+    results beyond the code results that have a type are unnamed, then the names of the returned list
+    are pairwise distinct (they are `result_1 … ` in increasing order, with gaps for documented results
+    without a type). -/
+theorem appended_names_fresh_general (env : AEnv) (fid : String) (rs rs' : List Result) (docs : List ResultDoc)
+    (st st' : VSt) (h : reconcileResults env fid 0 rs rs docs st = .ok (rs', st'))
+    (hrs : ∀ (j : Nat) (r : Result), rs[j]? = some r → r.name = "result_" ++ toString (j + 1))
+    (hdocs : ∀ d ∈ docs.drop rs.length, d.type.isSome → d.name = "") :
+    (rs'.map (·.name)).Nodup := by
+  rw [l14_reconcileResults_run] at h
+  simp only [Except.ok.injEq, Prod.mk.injEq] at h
+  obtain ⟨rfl, -⟩ := h
+  exact l14_resOut_names_nodup env fid rs docs hrs hdocs
+
+/-- … in particular when no documented result has a name. -/
+theorem appended_names_fresh (env : AEnv) (fid : String) (rs rs' : List Result) (docs : List ResultDoc)
+    (st st' : VSt) (h : reconcileResults env fid 0 rs rs docs st = .ok (rs', st'))
+    (hrs : ∀ (j : Nat) (r : Result), rs[j]? = some r → r.name = "result_" ++ toString (j + 1))
+    (hdocs : ∀ d ∈ docs, d.name = "") :
+    (rs'.map (·.name)).Nodup :=
+  appended_names_fresh_general env fid rs rs' docs st st' h hrs
+    (fun d hd _ => hdocs d (List.mem_of_mem_drop hd))
+
+/-- … and the ids, which are `fid ++ "/" ++ name` for the appended results: if the code results have
+    ids of that form too, the ids of the returned list are pairwise distinct. -/
+theorem appended_ids_fresh (env : AEnv) (fid : String) (rs rs' : List Result) (docs : List ResultDoc)
+    (st st' : VSt) (h : reconcileResults env fid 0 rs rs docs st = .ok (rs', st'))
+    (hrs : ∀ (j : Nat) (r : Result), rs[j]? = some r →
+      r.name = "result_" ++ toString (j + 1) ∧ r.id = fid ++ "/" ++ r.name)
+    (hdocs : ∀ d ∈ docs, d.name = "") :
+    (rs'.map (·.id)).Nodup := by
+  have hn := appended_names_fresh env fid rs rs' docs st st' h (fun j r hj => (hrs j r hj).1) hdocs
+  have hid : ∀ r ∈ rs', r.id = fid ++ "/" ++ r.name := by
+    intro r hr
+    obtain ⟨k, hk⟩ := List.getElem?_of_mem hr
+    obtain ⟨h1, h2, -⟩ := result_choice env fid rs rs' docs st st' h
+    rcases Nat.lt_or_ge k rs.length with hlt | hge
+    · obtain ⟨r0, hr0⟩ : ∃ r0, rs[k]? = some r0 := ⟨rs[k], List.getElem?_eq_getElem hlt⟩
+      have := h1 k r0 hr0
+      rw [hk] at this
+      simp only [Option.some.injEq] at this
+      subst this
+      exact (hrs k r0 hr0).2
+    · have hm : r ∈ rs'.drop rs.length := by
+        have : (rs'.drop rs.length)[k - rs.length]? = some r := by
+          rw [List.getElem?_drop, ← hk]; congr 1; omega
+        exact List.mem_of_getElem? this
+      rw [h2, List.mem_filterMap] at hm
+      obtain ⟨⟨d, j⟩, -, hdj⟩ := hm
+      cases hdt : d.type with
+      | none => simp [hdt] at hdj
+      | some dt =>
+        simp only [hdt, Option.map_some, Option.some.injEq] at hdj
+        subst hdj
+        rfl
+  have : rs'.map (·.id) = (rs'.map (·.name)).map (fun n => fid ++ "/" ++ n) := by
+    rw [List.map_map]
+    exact List.map_congr_left (fun r hr => hid r hr)
+  rw [this]
+  refine List.Pairwise.map _ (fun a b hab e => hab ?_) hn
+  have e' := congrArg String.toList e
+  simp only [String.toList_append, List.append_cancel_left_eq] at e'
+  exact String.toList_inj.1 e'
 
 /-- The warning log (ANY arguments, no invariant needed): the state changes in its warning log only;
     one record per position `k < min rs.length docs.length` (in order of position; the records are all
@@ -398,28 +465,46 @@ private def resultRun (env : AEnv) (rs : List Result) (docs : List ResultDoc)
 private def msgR : String := "Different type hint and docstring types for the result of 'm/f'."
 
 /-- CODE preference: the hints stay; position 0 differs (`int` vs `str`) → one record; position 1 has no
-    documented type → nothing; position 2 has no code result → appended as `result_2` (loop counter 2) -/
+    documented type → nothing; position 2 has no code result → appended as `result_3` (position 2, numbered
+    from 1): no collision with the id `m/f/result_2` of the second code result -/
 example : resultRun (envOf false true) rs2 docs3
     [("m/f/result_1", "result_1", intT), ("m/f/result_2", "result_2", strT),
-     ("m/f/result_2", "result_2", .named "float" "builtins.float")] ["earlier", msgR] = true := by
+     ("m/f/result_3", "result_3", .named "float" "builtins.float")] ["earlier", msgR] = true := by
   decide +kernel
 /-- DOCSTRING preference: position 0 takes `str` but keeps id and name; same record -/
 example : resultRun (envOf true true) rs2 docs3
     [("m/f/result_1", "result_1", strT), ("m/f/result_2", "result_2", strT),
-     ("m/f/result_2", "result_2", .named "float" "builtins.float")] ["earlier", msgR] = true := by
+     ("m/f/result_3", "result_3", .named "float" "builtins.float")] ["earlier", msgR] = true := by
   decide +kernel
 /-- warnings disabled: the same lists, an unchanged log -/
 example : resultRun (envOf false false) rs2 docs3
     [("m/f/result_1", "result_1", intT), ("m/f/result_2", "result_2", strT),
-     ("m/f/result_2", "result_2", .named "float" "builtins.float")] ["earlier"] = true := by
+     ("m/f/result_3", "result_3", .named "float" "builtins.float")] ["earlier"] = true := by
   decide +kernel
 example : resultRun (envOf true false) rs2 docs3
     [("m/f/result_1", "result_1", strT), ("m/f/result_2", "result_2", strT),
-     ("m/f/result_2", "result_2", .named "float" "builtins.float")] ["earlier"] = true := by
+     ("m/f/result_3", "result_3", .named "float" "builtins.float")] ["earlier"] = true := by
   decide +kernel
-/-- the numbering quirk: no code results, one unnamed documented result → `result_0` -/
-example : resultRun (envOf false true) [] [{ type := some intT }] [("m/f/result_0", "result_0", intT)]
+/-- no code results, one unnamed documented result → `result_1` (numbered from 1) -/
+example : resultRun (envOf false true) [] [{ type := some intT }] [("m/f/result_1", "result_1", intT)]
     ["earlier"] = true := by
+  decide +kernel
+
+/-- ids and names of a run are pairwise distinct -/
+private def distinctRun (env : AEnv) (rs : List Result) (docs : List ResultDoc) : Bool :=
+  match reconcileResults env "m/f" 0 rs rs docs st0 with
+  | .ok (rs', _) => decide (rs'.map (·.id)).Nodup && decide (rs'.map (·.name)).Nodup
+  | .error _ => false
+
+/-- the former id collision is gone: two code results and an unnamed third documented result give three
+    distinct ids `m/f/result_1`, `m/f/result_2`, `m/f/result_3` (an instance of `appended_names_fresh_general`
+    / `appended_ids_fresh`'s conclusion; `docs3` names only positions covered by code results) -/
+example : distinctRun (envOf false true) rs2 docs3 = true := by decide +kernel
+example : distinctRun (envOf true false) rs2 docs3 = true := by decide +kernel
+/-- the hypothesis "surplus documented results are unnamed" of `appended_names_fresh` is needed: a surplus
+    documented result NAMED `result_1` collides with the first code result -/
+example : distinctRun (envOf false true) rs2
+    [{ type := some strT }, { type := none }, { type := some intT, name := "result_1" }] = false := by
   decide +kernel
 
 /-! end to end: `m.py` with `def f(x: int) -> None` and the numpy docstring `x : str` -/
